@@ -144,7 +144,7 @@ theorem store_some {s : St} (h : Inv s) {v L C : Nat} (X : Excl s v L C) {data :
 
 theorem printf_some {s : St} (h : Inv s) {v : Nat} (hv : v < s.n) (f : List Fmt) :
     ∃ r, printf s v f = some r := by
-  obtain ⟨s1, h1⟩ := detach_some h v (c := 0) (m := 200) (Nat.zero_le _)
+  obtain ⟨s1, h1⟩ := detach_some h v (c := 0) (m := Generated.printfBuf) (Nat.zero_le _)
   obtain ⟨E1, X1⟩ := eff_detach h hv h1
   simp only [printf, h1, Option.bind_eq_bind, Option.bind_some, Option.pure_def]
   obtain ⟨bk, blk, hloc, hb, r1, hl, hcap⟩ := X1
@@ -355,7 +355,7 @@ theorem replaceS_some {s : St} (h : Inv s) {v wn tmp : Nat} (hv : v < s.n) (hwn 
       obtain ⟨dv, hdv⟩ := desc_some S.inv v
       obtain ⟨dr, hdr⟩ := desc_some S.inv wr_
       have ht2 : tmp < s2.n := by rw [S.n]; exact ht
-      obtain ⟨s3, h3⟩ := ctorCap_some s2 tmp (dv.len + dr.len * 10)
+      obtain ⟨s3, h3⟩ := ctorCap_some s2 tmp (dv.len + dr.len * Generated.replaceSlack)
       have E3 := eff_ctorCap S.inv ht2 h3
       have ht3 : tmp < s3.n := by rw [E3.n]; exact ht2
       obtain ⟨s4, h4⟩ := replaceLoop_some (c := absVar s2 v) (wr_ := wr_) hnd (c.length + 1) 0 m E3.inv ht3
